@@ -492,4 +492,51 @@ def run(ctx):
         run.instance(R7, {"fn": "clean_old_unconfirmed", "obligation": "the clean-up only deletes", "effects": sorted(kinds)}, held=h)
         if not h:
             run.finding(Finding(R7, co.id, "the age-based clean-up has effects other than deleting the selected candidates: %s" % sorted(kinds), site=co.loc()))
+    R8 = "C04.R8"
+    run.rule(R8, "which outputs a refresh asks the node about: every non-spent output of the account that belongs to an outstanding transaction or to none", floor=3)
+    mw = ctx.fn(UPD + "map_wallet_outputs")
+    if mw:
+        # (a) the narrowing filter (update_all = false): an output without a log entry is always kept
+        narrowing = None
+        for k in db.closures_of(mw.id, recursive=False):
+            g = db.fns[k]
+            reads = set()
+            for bb in g.bbs:
+                for st in bb["s"]:
+                    if st["k"] == "a":
+                        for key in ("o", "p"):
+                            o_ = st["r"].get(key)
+                            pl = o_ if key == "p" else (vf.op_place(o_) if isinstance(o_, dict) else None)
+                            if pl and pl[1]:
+                                for e in pl[1]:
+                                    if isinstance(e, dict) and e.get("a") == OD:
+                                        reads.add(e["n"])
+            if "tx_log_entry" in reads:
+                narrowing = g
+        held = narrowing is not None
+        if held:
+            pe = dectree.PathEnum(narrowing, db)
+            none_paths, bad = 0, 0
+            for p in pe.paths(0):
+                lits = [e for e in p.events if e[0] == "lit" and (e[2] == "None" or (isinstance(e[2], tuple) and "Some" in e[2]))]
+                is_none = any((e[2] == "None" and e[3]) or (isinstance(e[2], tuple) and "Some" in e[2] and not e[3]) for e in lits)
+                if is_none:
+                    none_paths += 1
+                    v = [e[2] for e in p.events if e[0] == "set" and e[1] == "_0"]
+                    if not v or v[-1] != "1":
+                        bad += 1
+            held = none_paths > 0 and bad == 0
+        run.instance(R8, {"fn": "map_wallet_outputs", "obligation": "an output that belongs to no log entry (e.g. a coinbase candidate) is always refreshed"}, held=held)
+        if not held:
+            run.finding(Finding(R8, mw.id, "outputs without a log entry are no longer refreshed", site=mw.loc()))
+        # (b) the narrowing is applied only when update_all is false
+        ua = c.param(mw, "update_all", "bool")
+        g_ua = cfg.local_guard(mw, ua) if ua is not None else None
+        flt = [b for b, t in mw.calls() if (t.get("f") or "").endswith("Iterator::filter")]
+        h = g_ua is not None and bool(g_ua.fail) and len(flt) == 2 and sum(1 for b in flt if cfg.must_pass(mw, g_ua.fail, {b})[0]) == 1
+        run.instance(R8, {"fn": "map_wallet_outputs", "obligation": "update_all = true asks about every non-spent output of the account (the narrowing filter sits on the false edge only)"}, held=h)
+        if not h:
+            run.finding(Finding(R8, mw.id, "the update_all switch no longer selects between all non-spent outputs and the outstanding ones", site=mw.loc()))
+        from .shared import was_unspent_flag
+        was_unspent_flag(ctx, R8)
     run.not_decided += ["equality with the node's UTXO set", "the ledger identity credits - debits = total + locked", "confirmation / maturity arithmetic"]
